@@ -3,6 +3,7 @@ from pyvc.contract import contract, T, fresh_array
 from pyvc import values as V
 from pyvc.stubs import _sqrt
 from pyvc.values import trunc
+from fractions import Fraction
 
 
 def shell_sums():
@@ -49,13 +50,18 @@ def _native_fsc(img0, img1, dfreq):
 class fourier_shell_correlation:
     """FSC[l] = Re sum_l(F0 conj F1) / sqrt(sum_l |F0|^2  sum_l |F1|^2), the sums over the shell of bins whose centred
     frequency radius |f| satisfies trunc(|f| / dfreq) == l; freq[l] = (l + 0.5) dfreq."""
-    params = dict(img0=T.Arr(3, "real"), img1=T.Arr(3, "real"), dfreq=T.Real())
+    params = dict(img0=T.Arr(3, "real", cand_shapes=((3, 3, 3), (5, 4, 3))), img1=T.Arr(3, "real", cand_shapes=((3, 3, 3), (5, 4, 3))),
+                  dfreq=T.Real(cands=(Fraction(1, 10), Fraction(1, 7))))
     requires = ["dfreq > 0", "all(img0.shape[a] == img1.shape[a] for a in range(3))"]
     helpers = dict(_H)
     native_helpers = dict(_native_fsc=_native_fsc)
     native_call = "_mod.fourier_shell_correlation(**args)"
     native = {
-        "three_shell_sums": "True", "shell_labels": "True", "cross_and_power_spectra": "True",
+        # the internal (ghost) clauses are observable only through the result: all are replayed as the end-to-end formula
+        "three_shell_sums": "np.allclose(result[1], _native_fsc(img0, img1, dfreq), atol=1e-3, equal_nan=True)",
+        "shell_labels": "np.allclose(result[1], _native_fsc(img0, img1, dfreq), atol=1e-3, equal_nan=True)",
+        "shell_index": "np.allclose(result[1], _native_fsc(img0, img1, dfreq), atol=1e-3, equal_nan=True)",
+        "cross_and_power_spectra": "np.allclose(result[1], _native_fsc(img0, img1, dfreq), atol=1e-3, equal_nan=True)",
         "normalised_cross_spectrum": "np.allclose(result[1], _native_fsc(img0, img1, dfreq), atol=1e-3, equal_nan=True)",
         "frequencies": "np.allclose(result[0], (np.arange(len(result[1])) + 0.5) * dfreq)",
     }
